@@ -62,9 +62,15 @@ impl Check for C04 {
         tier.pick(std::time::Duration::from_secs(200), std::time::Duration::from_secs(1500))
     }
     fn required_counters(&self, _tier: Tier) -> Vec<&'static str> {
-        vec!["path:client-paid", "path:unpaid-update", "path:replication", "raw-puts", "raw-put:oversized", "variant:victim-key"]
+        vec!["path:client-paid", "path:unpaid-update", "path:replication", "raw-puts", "raw-put:oversized", "variant:victim-key", "realnet:presented:own-key", "realnet:presented:random-key"]
+    }
+    fn lane_cases(&self, tier: Tier) -> u64 {
+        tier.pick(6, 48)
     }
     fn run_case(&self, cx: &mut Cx) {
+        if cx.index >= LANE_BASE {
+            return crate::realcases::c04_case(cx);
+        }
         let root = scratch_dir("c04");
         let (mut sim, env) = node_sim(cx, &root, 0);
         sim.stub.as_ref().expect("stub").set_default(Some(1_000));
